@@ -19,6 +19,10 @@ Strengthened slices (docs/STRENGTHEN_TASK.md; alphabets in mc/ref/c12x.py):
   C12.scale           r (alone or with epsilon, sigma, r_c) as numpy arrays of 1, 64, 65, 257 (thorough .. 4097) elements and 2-D
   C12.edge            exponents at which inner powers become zero / negative: n in {-2..2}, alpha in {1, 1.25, 1.5, 2}
   C12.sequence.mixed  call words ACROSS the three models (same r, epsilon, sigma, r_c, shift), fresh object per call and ONE shared object
+Round 4 (docs/STRENGTHEN_TASK2.md; alphabets in mc/ref/c12y.py):
+  C12.caller.decoys   L1: the fields of the OTHER models in InteractionParams hold defaults / 0.0 / negative / 1e300 / NaN
+  C12.zero            L8: A = 0 / 0.0 and epsilon = 0 / 0.0 given explicitly (positional, keyword, through caller)
+  C12.types           L5: + the scalar-type mixtures the Hessian code produces (float64 r, matrix-element epsilon / sigma / r_c)
 """
 import itertools
 import os
@@ -27,7 +31,7 @@ import numpy as np
 
 from mc import harness
 from mc.harness import Result, Sub
-from mc.ref import c12x, pairpot
+from mc.ref import c12x, c12y, pairpot
 
 ASSUMPTIONS = [
     "documented potentials (docs/hessian.md): LJ 4 eps[(sigma/r)^12-(sigma/r)^6]; IPL A eps (sigma/r)^n; Hertz "
@@ -49,6 +53,14 @@ ASSUMPTIONS = [
     "A eps (sigma/r)^n) and alpha in {1, 1.25, 1.5, 2} on r < sigma strictly (alpha < 2: s'' diverges at r = sigma, excluded); "
     "alpha = 1 only without shift: there the documented 's'(r_c) = 0' and the derivative of the documented s(r) (-eps/sigma) disagree, "
     "the implementation follows the documentation - nothing is demanded",
+    "C12.caller.decoys (round 4, L1): InteractionParams fields that belong to the other models are documented as parameters of those models only; whatever they "
+    "hold (defaults, 0.0, negative values, 1e300, NaN) the selector must return the requested model's triple without touching them",
+    "C12.zero (round 4, L8): A = 0 and epsilon = 0 are inside the domain ('for every ... energy scale ... and prefactor'; docs/hessian.md excludes neither): "
+    "the documented potential is identically zero there and so are its derivatives; the default prefactor A = 1.0 applies only when A is NOT given",
+    "C12.types matrix forms (round 4, L5): r as numpy float64 (float32) scalar together with epsilon / sigma / r_c as int64 / int32 / float32 / python-int scalars "
+    "(elements of the user's parameter matrices) and python-float exponents; float32 parameters are only required to give float32 accuracy (2e-6 relative)",
+    "C12.dilation (round 4, L9): the documented potentials depend on r / sigma only, so multiplying r, sigma, r_c by a common factor at fixed epsilon multiplies s' by "
+    "1/factor and s'' by 1/factor^2, at ANY absolute scale (2^-33, 2^27): comparisons there are purely relative",
     "C12.sequence.mixed: the result of a call must not depend on earlier calls with another model / exponent / prefactor, neither "
     "through process-wide state (fresh object per call) nor through state kept on one PairInteractions object (same-object mode)",
 ]
@@ -127,7 +139,7 @@ def call(case, r, r_c):
     P = PairInteractions(r, case["eps"], case["sigma"], r_c, case["shift"])
     m, via = case["model"], case["via"]
     if via == "caller":
-        kw = dict(DECOY)
+        kw = dict(DECOY) if not case.get("decoy") else c12y.decoy_kw(m, case["decoy"])
         if m == "lj":
             ip = InteractionParams(ModelName.lennard_jones, **kw)
         elif m == "ipl":
@@ -142,6 +154,8 @@ def call(case, r, r_c):
     if m == "ipl":
         if via == "direct_default_A":
             return P.inverse_power_law(case["n"])
+        if via == "direct_kw":
+            return P.inverse_power_law(n=case["n"], A=case["A"])
         return P.inverse_power_law(case["n"], case["A"])
     return P.harmonic_hertz(case["alpha"])
 
@@ -155,6 +169,10 @@ def run(case):
     feat = {"model": m, "via": case["via"], "shift": sh}
     if m == "ipl":
         feat["n_integer"] = bool(float(case["n"]).is_integer())
+    if case.get("decoy"):
+        feat["decoy"] = case["decoy"]
+    if case.get("zero"):
+        feat["zero"] = case["zero"]
     rows = []
     for x in case["x"]:
         r = x * sg
@@ -194,6 +212,90 @@ def run(case):
     # (the Hertz contact node r = sigma has s1 = 0 by construction: not part of the non-triviality rule)
     core = [g for g, x in zip(rows, case["x"]) if not (m == "hertz" and x == 1.0)]
     R.nontrivial = len(core) > 0 and all(abs(g[0]) > 0 and abs(g[2]) > 0 for g in core) and (not sh or m == "hertz" or all(g[1] != 0 for g in core))
+    if case.get("zero"):
+        R.nontrivial = len(core) > 0  # an explicit zero prefactor / energy scale: the documented derivatives are all zero
+    return R
+
+
+# ------------------------------------------------------------------------------------------ round 4: decoys (L1), explicit zeros (L8)
+def gen_decoys(tier, seed):
+    """caller() with the fields of the OTHER models set to values that are harmless only if those fields are never touched; the r grid contains
+    r = sigma exactly (x = 1), where an eagerly evaluated Hertz branch with the default alpha = 0 divides by zero"""
+    q = tier == "quick"
+    a = alpha(tier)
+    for name in c12y.DECOY_SETS:
+        for k, c in enumerate(gen_model("lj", "caller")(tier, seed)):
+            yield dict(c, decoy=name)
+        for k, c in enumerate(gen_model("ipl", "caller")(tier, seed)):
+            if k % (9 if q else 5) == 0:
+                yield dict(c, decoy=name)
+        for c in gen_model("hertz", "caller")(tier, seed):
+            yield dict(c, decoy=name)
+
+
+def gen_zero(tier, seed):
+    """L8: A = 0 / 0.0 and epsilon = 0 / 0.0 given explicitly (direct positionally, direct by keyword, through caller)"""
+    a = alpha(tier)
+    xs = a["x"][::3]
+    for z in c12y.ZEROS:
+        for sg, y, sh in itertools.product(a["sigma"], a["y"], a["shift"]):
+            for n in a["n"]:
+                for via in ("direct", "direct_kw", "caller"):
+                    for ep in a["eps"][:2]:
+                        yield {"model": "ipl", "via": via, "sigma": sg, "eps": ep, "y": y, "shift": sh, "n": n, "A": z, "x": xs, "zero": "A"}
+                    yield {"model": "ipl", "via": via, "sigma": sg, "eps": z, "y": y, "shift": sh, "n": n, "A": 2.5, "x": xs, "zero": "eps"}
+            for via in ("direct", "caller"):
+                yield {"model": "lj", "via": via, "sigma": sg, "eps": z, "y": y, "shift": sh, "x": xs, "zero": "eps"}
+        for al, sg, sh in itertools.product(a["alpha"], a["sigma"], a["shift"]):
+            for via in ("direct", "caller"):
+                yield {"model": "hertz", "via": via, "sigma": sg, "eps": z, "y": 1.0, "shift": sh, "alpha": al, "x": a["xh"][::3], "zero": "eps"}
+
+
+# ------------------------------------------------------------------------------------------ round 4, L9: absolute scale
+DILATIONS = [2.0 ** -33, 2.0 ** 27]  # exact in binary floating point
+
+
+def gen_dilation(tier, seed):
+    a = alpha("quick")
+    for si in range(len(DILATIONS)):
+        for via in ("direct", "caller"):
+            for sg, ep, y, sh in itertools.product(a["sigma"], a["eps"][:2], a["y"], a["shift"]):
+                yield {"model": "lj", "via": via, "sigma": sg, "eps": ep, "y": y, "shift": sh, "x": a["x"][::2], "dil": si}
+                for n, A in ((10, 1.0), (12.5, 2.5), (6, 1.0)):
+                    yield {"model": "ipl", "via": via, "sigma": sg, "eps": ep, "y": y, "shift": sh, "n": n, "A": A, "x": a["x"][::2], "dil": si}
+            for al, sg, ep, sh in itertools.product(a["alpha"], a["sigma"], a["eps"][:2], a["shift"]):
+                yield {"model": "hertz", "via": via, "sigma": sg, "eps": ep, "y": 1.0, "shift": sh, "alpha": al, "x": a["xh"][::2], "dil": si}
+
+
+def run_dilation(case):
+    """every length (r, sigma, r_c) multiplied by 2^-33 / 2^27 at fixed energy scale: s' scales by 1/scale, s'' by 1/scale^2 (the documented potentials depend
+    on r / sigma only); compared with the undilated library result mapped through these powers (1e-12) AND with the hyper-dual reference at the dilated arguments"""
+    R = Result()
+    m, sh, sg, ep = case["model"], case["shift"], case["sigma"], case["eps"]
+    sc = DILATIONS[case["dil"]]
+    feat = {"model": m, "via": case["via"], "shift": sh, "clause": "dilation", "scale": "tiny" if sc < 1 else "huge"}
+    par = {"n": case.get("n"), "A": case.get("A"), "alpha": case.get("alpha")}
+    rows = []
+    cd = dict(case, sigma=sg * sc)
+    for x in case["x"]:
+        r, rc = x * sg, case["y"] * sg
+        base = [float(np.real(v)) for v in call(case, r, rc)]
+        got = call(cd, r * sc, rc * sc)
+        if got is None or len(got) != 3 or any(isinstance(v, complex) for v in got):
+            R.fail(f"{m}: returned {got!r} at lengths x {sc}", sig=dict(feat, clause="shape"))
+            break
+        g = [float(v) for v in got]
+        want = [base[0] / sc, base[1] / sc, base[2] / sc / sc]
+        exp = pairpot.triple(m, r * sc, ep, sg * sc, rc * sc, sh, **par)
+        rows.append([g[0] * sc, g[1] * sc, g[2] * sc * sc])
+        bad = [k for k in range(3) if not (abs(g[k] - want[k]) <= 1e-12 * abs(want[k]) and abs(g[k] - exp[k]) <= RTOL * abs(exp[k])) or (k == 1 and not sh and g[k] != 0.0)]
+        if bad:
+            R.fail(f"{m} ({case['via']}) with all lengths x {sc}: r={r * sc!r}, sigma={sg * sc!r}, r_c={rc * sc!r}, eps={ep}, {par}: returned {g}; undilated result mapped through "
+                   f"1/scale, 1/scale, 1/scale^2 = {want}; derivatives of the documented potential = {exp} (entries {bad})", sig=dict(feat, entry=["s1", "s1rc", "s2"][bad[0]]), exp=want, obs=g)
+            break
+    R.elem = 3 * len(rows)
+    R.outcome(rows)
+    R.nontrivial = len(rows) > 0
     return R
 
 
@@ -324,7 +426,7 @@ def _invoke(model, via, r, eps, sigma, r_c, shift, n=None, A=None, alpha=None, o
 
 def gen_types(tier, seed):
     for m in pairpot.MODELS:
-        for form in c12x.NUM_FORMS:
+        for form in c12x.NUM_FORMS + list(c12y.MATRIX_FORMS):
             for via in ("direct", "caller"):
                 for sh in (True, False):
                     yield {"model": m, "form": form, "via": via, "shift": sh}
@@ -333,15 +435,22 @@ def gen_types(tier, seed):
 def run_types(case):
     R = Result()
     m, form, via, sh = case["model"], case["form"], case["via"], case["shift"]
-    mk = _mk(form)
-    rt = 1e-4 if form == "np.float32" else RTOL
+    if form in c12y.MATRIX_FORMS:
+        # the types the Hessian code hands over: r from numpy.linalg.norm (float64), epsilon / sigma / r_c elements of the user's parameter matrices
+        mk_r, mk, rt = c12y.MATRIX_FORMS[form]
+        mk_x = float
+    else:
+        mk = mk_r = mk_x = _mk(form)
+        rt = 1e-4 if form == "np.float32" else RTOL
     feat = {"model": m, "via": via, "shift": sh, "form": form, "clause": "types"}
     rows = []
     for r, s, c, e, ex in c12x.int_tuples(m):
-        kw = {k: mk(v) for k, v in ex.items()}
+        kw = {k: mk_x(v) for k, v in ex.items()}
         # the shift flag in the flavour of the form too: python bool / 0-1 integer / numpy bool
         shf = {"pyint": int(sh), "np.int64": np.bool_(sh), "np.int32": np.int32(sh)}.get(form, sh)
-        got = _invoke(m, via, mk(r), mk(e), mk(s), mk(c), shf, **kw)
+        if form in c12y.MATRIX_FORMS:
+            r = r + 0.25  # a genuine (non-integral) distance between integer-valued parameters; exact in float32
+        got = _invoke(m, via, mk_r(r), mk(e), mk(s), mk(c), shf, **kw)
         exp = pairpot.triple(m, float(r), float(e), float(s), float(c), sh, n=ex.get("n"), A=ex.get("A"), alpha=ex.get("alpha"))
         if got is None or len(got) != 3 or any(np.ndim(v) != 0 for v in got):
             R.fail(f"{m} with {form} arguments r={r}, eps={e}, sigma={s}, r_c={c}, {ex}: returned {got!r}", sig=dict(feat, clause="shape"))
@@ -358,7 +467,7 @@ def run_types(case):
                    f"potential are {exp} (entries {bad} wrong)", sig=dict(feat, entry=["s1", "s1rc", "s2"][bad[0]]), exp=exp, obs=g)
             break
     R.elem = 3 * len(rows)
-    R.outcome(np.round(np.array(rows), 4) if form == "np.float32" else rows)
+    R.outcome(np.round(np.array(rows), 4) if rt > RTOL else rows)
     R.nontrivial = len(rows) > 0
     return R
 
@@ -595,6 +704,20 @@ def subs(tier, seed):
                    rule="the same grids through caller(InteractionParams) with decoy values in the fields of the other models: result equals "
                         "the requested model's method (bitwise) and the hyper-dual reference",
                    bounds={"decoys": DECOY}))
+    out.append(Sub("C12.caller.decoys", gen_decoys, run,
+                   rule="L1: the caller grids (LJ and Hertz complete, every " + ("9th" if tier == "quick" else "5th") + " IPL tuple) with the InteractionParams fields of the OTHER models "
+                        "set to: their defaults (not given), explicit 0.0, negative values, 1e300, NaN - the result must be bit for bit the requested model's method and the "
+                        "hyper-dual reference (the r grid contains r = sigma, where a Hertz branch evaluated with alpha = 0 divides by zero)",
+                   bounds={"decoy_sets": {k: {kk: str(vv) for kk, vv in v.items()} for k, v in c12y.DECOY_SETS.items()}}))
+    out.append(Sub("C12.zero", gen_zero, run,
+                   rule="L8: explicit zeros for numeric parameters: A in {0, 0.0} (positional, keyword, through caller) and epsilon in {0, 0.0} for all three models x sigma x r_c x "
+                        "shift x n / alpha x every third r node: the derivatives of the documented potential (all zero) - not those for the default prefactor",
+                   bounds={"zeros": ["A", "epsilon"]}))
+    out.append(Sub("C12.dilation", gen_dilation, run_dilation,
+                   rule="L9 absolute scale: r, sigma, r_c all multiplied by 2^-33 and by 2^27 (exact), energy scale fixed, x model (IPL (10,1), (12.5,2.5), (6,1); Hertz alpha) x "
+                        "direct / caller x shift x sigma x epsilon x r_c / sigma x every second r node: s' and s'(r_c) scale by 1/scale, s'' by 1/scale^2 - compared with the undilated "
+                        "library result mapped through these powers (1e-12 relative, no absolute tolerance) and with the hyper-dual reference at the dilated arguments (1e-9 relative)",
+                   bounds={"scales": ["2^-33", "2^27"]}))
     sq = Sub("C12.sequence", gen_sequence, run_sequence,
              rule="explicit-state search over CALL SEQUENCES: all words of length <= " + ("2" if tier == "quick" else "3")
                   + " over the base parameter tuple and all its single-coordinate departures (r, epsilon, sigma, r_c, shift, n, A, alpha), "
@@ -605,7 +728,9 @@ def subs(tier, seed):
     out.append(sq)
     q = tier == "quick"
     out.append(Sub("C12.types", gen_types, run_types,
-                   rule="ARGUMENT TYPES: every argument (r, epsilon, sigma, r_c, n, A, alpha) given as " + ", ".join(c12x.NUM_FORMS) + " x model x direct / caller x "
+                   rule="ARGUMENT TYPES: every argument (r, epsilon, sigma, r_c, n, A, alpha) given as " + ", ".join(c12x.NUM_FORMS) + ", and the MIXTURES the Hessian code produces "
+                        "(r numpy float64 / float32 with epsilon, sigma, r_c elements of an int64 / int32 / float32 matrix or python ints, exponents python floats: "
+                        + ", ".join(c12y.MATRIX_FORMS) + ") x model x direct / caller x "
                         "shift; full product of integer values r in {2,3,7}, sigma in {1,2,3} (Hertz {3,8}), r_c in {4,8}, epsilon in {1,2}, n in {4,6,12}, A in {1,3}, "
                         "alpha in {2,3} (so that integer division / integer powers / int32 overflow of r^(n+2) = 7^14 would show); hyper-dual reference",
                    bounds={"forms": c12x.NUM_FORMS, "r": c12x.INT_R, "sigma": c12x.INT_SIGMA, "r_c": c12x.INT_RC, "n": c12x.INT_N}))
